@@ -17,6 +17,15 @@ Values
                              state version, calls of mutators are recorded as effects
   FuncVal / ClassVal / ExtRef / Partial / Closure
 
+  OpenInfo                   side table for native list / dict / set objects that a skipped loop may have changed: known items plus an
+                             unknown rest; membership is an atom `member@epoch.version(name, x)`, iteration yields the known items, every
+                             value known to be a member on this path, and one repeated segment for the rest
+  CtxGen / DDict             contextlib.contextmanager generators (entered by `with`), collections.defaultdict
+
+Loops whose continuation the oracle (not the data) decided twice in a row (`while` with symbolic tests / breaks) and functions that
+re-entered themselves three times on symbolic arguments are loops / recursions of unknown length: skipped with their effects forgotten
+(havoc values are uninterpreted functions `after(var, site, state)` of the state they start from) or explored for one arbitrary iteration.
+
 Path enumeration is by re-execution: a run follows a vector of decisions; when it needs a new decision it takes True and the sibling is
 scheduled.  Loops over iterables of unknown length ("havoc loops") do not multiply paths: a run either skips the loop (variables
 assigned in it become unknown, abstract objects get a new state version) or executes the body once and stops there.
@@ -110,6 +119,8 @@ def show(t: Any) -> str:
             return f"{f[5:].split('::')[-1].split('.')[-1]}({', '.join(show(x) for x in a)})"
         if f.startswith("ext:"):
             return f"{f[4:]}({', '.join(show(x) for x in a)})"
+        if f == "after":
+            return f"<{a[0]} after the loop at {str(a[1]).split('::')[-1]}>"
         return f"{f}({', '.join(show(x) for x in a)})"
     if isinstance(t, (Sym, Cat)):
         return repr(t)
@@ -190,6 +201,11 @@ class ExtObj:
     type: str
     name: str
     version: int = 0
+    # concrete mode (Explorer(concrete_graph=True)): a directed graph over native values with networkx' semantics, insertion ordered
+    concrete: bool = False
+    cnodes: dict = field(default_factory=dict)  # node -> attribute dict
+    cadj: dict = field(default_factory=dict)  # node -> {successor -> attribute dict}
+    frozen: bool = False
 
 
 @dataclass(eq=False)
@@ -200,6 +216,7 @@ class Seq:
     """
 
     parts: list
+    unordered: bool = False  # the position of the known items among the unknown ones is not known
 
     @property
     def concrete(self) -> bool:
@@ -207,6 +224,23 @@ class Seq:
 
     def items(self) -> list:
         return [p[1] for p in self.parts if p[0] == "item"]
+
+
+@dataclass(eq=False)
+class OpenInfo:
+    """A native list / dict / set that a skipped loop of unknown length may have changed: besides the items the executor knows it holds
+    an unknown number of unknown elements.  `ver` counts the openings (an element that was not a member may have become one), `epoch`
+    the openings by a body that may also remove elements (then an element that was a member may have ceased to be one)."""
+
+    obj: Any
+    name: str
+    epoch: int = 0
+    ver: int = 0
+    attr: str = ""  # name of the attribute that holds the container (when it was found as a field of an object)
+
+    @property
+    def src(self) -> "App":
+        return App(f"open@{self.epoch}.{self.ver}", (self.name,))
 
 
 @dataclass(eq=False)
@@ -229,6 +263,12 @@ class FuncVal:
 class ClassVal:
     ci: ClassInfo
 
+    def __eq__(self, other: Any) -> bool:  # a class is the same value wherever it is looked up (dict dispatch on type(x))
+        return isinstance(other, ClassVal) and other.ci is self.ci
+
+    def __hash__(self) -> int:
+        return hash(self.ci.fq)
+
 
 @dataclass(frozen=True)
 class ExtRef:
@@ -240,6 +280,22 @@ class Partial:
     func: Any
     args: tuple
     kwargs: dict
+
+
+@dataclass(eq=False)
+class CtxGen:
+    """Result of calling a generator function decorated with contextlib.contextmanager: its body runs when a `with` statement enters it."""
+
+    fi: FuncInfo
+    args: list
+    kwargs: dict
+    closure: "Frame | None"
+
+
+class DDict(dict):
+    """collections.defaultdict: a dict whose missing keys are created by `factory`."""
+
+    factory: Any = None
 
 
 @dataclass(eq=False)
@@ -316,6 +372,7 @@ class Effect:
     version: int = 0
     where: str = ""
     n_decisions: int = 0  # number of decisions the run had taken when the effect happened
+    origins: tuple = ()  # (name of an open collection, value): the effect happened while iterating that collection, at a value known to be a member
 
 
 @dataclass
@@ -372,6 +429,7 @@ class Explorer:
 
     def __init__(self, repo: Repo, opaque: set[str] | None = None, stop: set[str] | None = None, max_runs: int = 4000, max_steps: int = 200000, split_calls: bool = False) -> None:
         self.repo = repo
+        self.concrete_graph = False  # library graph objects are modelled concretely (all inputs of the entry are constants)
         self.split_calls = split_calls  # explore statement-level calls that only touch abstract objects separately (paths add up instead of multiplying)
         self.effect_only: dict[str, bool] = {}
         self.opaque = opaque or set()
@@ -427,6 +485,40 @@ class InterpBase:
         self.fallbacks: set[str] = set()
         self.modconst: dict[tuple[str, str], Any] = {}
         self.ext_objs: list[ExtObj] = []
+        self.open: dict[int, OpenInfo] = {}  # id(container) -> OpenInfo (the container is kept alive by the entry)
+        self.ctx_bodies: list = []  # bodies of the `with` statements that are entering a generator context manager
+        self.n_asked = 0  # how often a condition was answered by the oracle (freshly or by an earlier decision) rather than by the data
+        self.iter_origins: list = []  # (open collection name, member) of the enclosing iterations over known members
+        self.active: list = []  # keys of the repo functions / closures being interpreted (recursion)
+        self.while_frames: list = []  # [frame, number of oracle decisions on an exit in the current iteration] per active while loop
+
+    # ------------------------------------------------------------------ open containers
+    def opened(self, c: Any) -> "OpenInfo | None":
+        o = self.open.get(id(c))
+        return o if o is not None and o.obj is c else None
+
+    def open_container(self, c: Any, hint: str, removing: bool) -> None:
+        o = self.opened(c)
+        if o is None:
+            o = self.open[id(c)] = OpenInfo(c, f"{hint}#{len(self.open) + 1}")
+        else:
+            o.ver += 1
+        if removing:
+            o.epoch += 1
+
+    def member_atom(self, o: "OpenInfo", x: Any) -> App:
+        return App(f"member@{o.epoch}.{o.ver}", (o.name, _h(x)))
+
+    def known_members(self, o: "OpenInfo") -> list:
+        """Values whose membership in the open container was decided positively on this path (and cannot have been undone)."""
+        out: list = []
+        for at, v in self.path.items():
+            if v and at.fn.startswith("member@") and at.args[0] == o.name and int(at.fn[7:].split(".")[0]) == o.epoch:
+                x = at.args[1]
+                if isinstance(x, (Term, str, int)) or (isinstance(x, tuple) and is_immutable(x) and not (len(x) == 3 and x[0] == "obj")):
+                    if not any(y is x or (type(y) is type(x) and y == x) for y in out):
+                        out.append(x)
+        return out
 
     # ------------------------------------------------------------------ decisions
     def _next_decision(self) -> bool:
@@ -449,6 +541,16 @@ class InterpBase:
             for a, v in self.path.items():
                 if a.fn == "in" and a.args[1] == s and v:
                     return True
+        if atom.fn.startswith("member@"):
+            x = atom.args[1]
+            if isinstance(x, App) and x.fn in ("elem", "key") and isinstance(x.args[0], App) and x.args[0].fn.startswith("open@") and x.args[0].args[0] == atom.args[0]:
+                return True  # the element an iteration over the collection is looking at
+            ep, ver = atom.fn[7:].split(".")
+            for a, v in self.path.items():
+                if v and a.fn.startswith("member@") and a.args == atom.args:
+                    ep2, ver2 = a.fn[7:].split(".")
+                    if ep2 == ep and int(ver2) <= int(ver):
+                        return True  # it was a member, and nothing can have removed it since
         return None
 
     def structural_decision(self, kind: str, site: str) -> bool:
@@ -458,6 +560,7 @@ class InterpBase:
         return v
 
     def decide(self, atom: App) -> bool:
+        self.n_asked += 1
         v = self.forced(atom)
         if v is None:
             v = self._next_decision()
@@ -472,6 +575,8 @@ class InterpBase:
     # ------------------------------------------------------------------ truth / comparison
     def truth(self, v: Any) -> bool:
         if isinstance(v, (bool, int, float, str, bytes, type(None), tuple, list, dict, set, frozenset)):
+            if isinstance(v, (list, dict, set)) and not v and self.opened(v) is not None:
+                return self.decide(App("truthy", (self.opened(v).src,)))
             return bool(v)
         if isinstance(v, Sym):
             k = v.kind
@@ -497,6 +602,10 @@ class InterpBase:
                     if m is not None:
                         return self.truth(self.call_function(m, [v], {}))
             return True
+        if isinstance(v, ExtObj) and v.concrete:
+            return bool(v.cnodes)
+        if isinstance(v, ExtView) and v.obj.concrete:
+            return bool(self.view_native(v))
         if isinstance(v, ExtObj):
             return self.decide(App(f"nonempty@{v.version}", (v.name,)))
         if isinstance(v, ExtView):
@@ -543,6 +652,9 @@ class InterpBase:
         if is_native(a) and is_native(b):
             return a == b
         if isinstance(a, (Inst, ANode, ExtObj, FuncVal, ClassVal)) or isinstance(b, (Inst, ANode, ExtObj, FuncVal, ClassVal)):
+            ta, tb = (tuple(x.fields[n] for n in x.args[1:]) if isinstance(x, Inst) and x.args[:1] == ("namedtuple",) else x for x in (a, b))
+            if (ta is not a or tb is not b) and isinstance(ta, tuple) and isinstance(tb, tuple):
+                return self.equal(ta, tb)  # NamedTuple records are tuples: compared by value, also with plain tuples
             if isinstance(a, Inst) and isinstance(b, Inst) and a.ci is b.ci and self.repo.lookup_method(a.ci, "__eq__") is None and dataclass_eq(a.ci):
                 return all(self.equal(a.fields.get(k), b.fields.get(k)) for k in a.fields)
             for x, y in ((a, b), (b, a)):
@@ -561,19 +673,25 @@ class InterpBase:
             raise Unsupported(f"equality of {type(a).__name__} and {type(b).__name__}")
 
     def contains(self, container: Any, x: Any) -> bool:
+        o = self.opened(container) if isinstance(container, (list, dict, set)) else None
         if isinstance(container, (list, tuple, set, frozenset)):
             items = list(container)
             if isinstance(container, (set, frozenset)) and is_native(x) and all(is_native(i) for i in items):
-                return x in container
+                if x in container or o is None:
+                    return x in container
             for i in items:
                 if i is x or (isinstance(i, Term) and i == x):
                     return True
+            if o is not None:
+                return self.decide(self.member_atom(o, x))  # one decision: whether x equals a known item or an unknown one makes no difference
             for i in items:
                 if self.equal(i, x):
                     return True
-            return False
+            return self.decide(self.member_atom(o, x)) if o is not None else False
         if isinstance(container, dict):
-            return self.dict_key(container, x if not isinstance(x, list) else tuple(x)) is not _MISSING_KEY
+            if self.dict_key(container, x if not isinstance(x, list) else tuple(x)) is not _MISSING_KEY:
+                return True
+            return self.decide(self.member_atom(o, x)) if o is not None else False
         if isinstance(container, Seq):
             for i in container.items():
                 if i is x or (isinstance(i, Term) and i == x):
@@ -585,6 +703,10 @@ class InterpBase:
             if isinstance(x, str):
                 return x in container
             return self.decide(App("in", (x, container)))
+        if isinstance(container, ExtObj) and container.concrete:
+            return self.contains(container.cnodes, x)
+        if isinstance(container, ExtView) and container.obj.concrete:
+            return self.contains(self.view_native(container), x)
         if isinstance(container, ExtObj):
             return self.decide(App(f"hasnode@{container.version}", (container.name, _h(x))))
         if isinstance(container, ExtView):
@@ -628,6 +750,10 @@ class InterpBase:
             return self.contains(b, a)
         if isinstance(op, ast.NotIn):
             return not self.contains(b, a)
+        # subset tests against the node / edge set of an abstract graph: membership of every element
+        for small, big, o in ((a, b, op), (b, a, _flip(op))):
+            if isinstance(o, (ast.LtE, ast.Lt)) and isinstance(small, (set, frozenset)) and isinstance(big, (ExtObj, ExtView)):
+                return all([self.contains(big, x) for x in sorted(small, key=show)])
         # ordering
         if is_native(a) and is_native(b):
             try:
